@@ -70,13 +70,16 @@ def domain_flags(ctx, strings):
 
 
 def check_domain_agreement(ctx, flags):
-    """the two formulations of D_mvn (element list / string) must accept the same accepted strings"""
+    """every string of the string formulation of D_mvn must parse to an element list of D_mvn (the hypothesis of the
+    theorems); the converse fails only for exotic spellings of the same element lists (1- and 1..2 parse like 1 and 1.0.2)"""
     for s, f in flags.items():
         if f is None:
             continue
-        if f[0] != f[2] or f[1] != f[3]:
-            ctx.divergence("svm_dmvn", {"str": s, "what": "D_mvn on the parsed elements and on the string disagree"},
+        if (f[2] and not f[0]) or (f[3] and not f[1]):
+            ctx.divergence("svm_dmvn", {"str": s, "what": "a string of D_mvn parses to an element list outside D_mvn"},
                            "elements: %s %s" % (f[0], f[1]), "string: %s %s" % (f[2], f[3]))
+        elif f[0] and not f[2]:
+            ctx.count("maven:dmvn:exotic-spelling-of-domain-elements")
 
 
 # ----------------------------------------------------------------------------- C01
